@@ -1,1 +1,1005 @@
-import Pfb.C17.Model
+/-
+  Pfb.C17.Props — property theorems for C17 (saveframe files hold exactly the selected
+  frames and variables).  Everything here is about the model `Pfb.C17.*` (Model.lean);
+  the model is tied to `_saveframe.py` / `_saveframe_reader.py` by harness/c17.py.
+
+  `re` (the function `Rx`), `pickle` (`Local.picklable`, load ∘ dump = id) and the
+  kernel's create-mode rule are inputs of the model, quantified over in the theorems.
+-/
+import Pfb.C17.Lemmas
+namespace Pfb.C17
+open Pfb
+
+/-! ## 0. the exception chain: the failing frame has key 1 -/
+
+/-- The frames of the exception itself come first, innermost first; then the frames of
+    `__cause__`, else of `__context__`. -/
+theorem C17_chain_first (cfg : Cfg) (tb : List Frame) (cause context : Option Exc) (sup : Bool) :
+    ∃ rest, allFrames cfg (.mk tb cause context sup) = tb.reverse ++ rest ∧
+      rest = (match cause with
+              | some c => allFrames cfg c
+              | none => match context with
+                | some x => if cfg.d2fixed && sup then [] else allFrames cfg x
+                | none => []) := by
+  cases cause <;> cases context <;> exact ⟨_, by simp only [allFrames], rfl⟩
+
+/-- Key 1 is the frame in which the exception was raised (the last traceback entry). -/
+theorem C17_failing_frame_first (cfg : Cfg) (tb : List Frame) (cause context : Option Exc) (sup : Bool)
+    (f : Frame) (h : tb.getLast? = some f) :
+    At (allFrames cfg (.mk tb cause context sup)) 1 f := by
+  obtain ⟨ys, rfl⟩ := List.getLast?_eq_some_iff.mp h
+  refine ⟨Nat.le_refl _, ?_⟩
+  cases cause <;> cases context <;> simp [allFrames]
+
+example : At (allFrames {} (.mk [⟨0, "a.py".toList, 3, "f".toList, "f".toList, [], [], [], []⟩,
+                                 ⟨1, "b.py".toList, 7, "g".toList, "g".toList, [], [], [], []⟩] none none false)) 1
+    ⟨1, "b.py".toList, 7, "g".toList, "g".toList, [], [], [], []⟩ :=
+  C17_failing_frame_first _ _ _ _ _ _ rfl
+
+/-! ## 1. selection -/
+
+/-- what one parsed frame `file_regex:line:function` (or the open end of `first..`) denotes -/
+def PatDenotes (rx : Rx) (all : List Frame) (p : Pat) (k : Nat) : Prop :=
+  match p with
+  | .openEnd => k = 1
+  | .pat r line fn => ∃ m f, rx r = some m ∧ At all k f ∧ frameMatches m line fn f = true
+
+theorem allMatching_spec {rx : Rx} {p : Pat} {all : List Frame} {l : List (Nat × Frame)}
+    (h : allMatching rx p all = .ok l) :
+    (∀ k f, (k, f) ∈ l ↔ At all k f ∧ PatDenotes rx all p k) ∧ l.Pairwise (fun x y => x.1 < y.1) := by
+  cases p with
+  | openEnd =>
+    cases all with
+    | nil => simp [allMatching] at h
+    | cons f0 rest =>
+      simp only [allMatching, Except.ok.injEq] at h
+      subst h
+      refine ⟨?_, by simp⟩
+      intro k f
+      simp only [List.mem_singleton, Prod.mk.injEq, PatDenotes, At]
+      constructor
+      · rintro ⟨rfl, rfl⟩; simp
+      · rintro ⟨⟨_, h2⟩, rfl⟩; simp at h2; exact ⟨rfl, h2.symm⟩
+  | pat r line fn =>
+    simp only [allMatching] at h
+    cases hr : rx r with
+    | none =>
+      simp only [hr] at h
+      split at h
+      · simp only [Except.ok.injEq] at h; subst h
+        refine ⟨?_, by simp⟩
+        intro k f; simp [PatDenotes, hr]
+      · simp at h
+    | some m =>
+      simp only [hr, Except.ok.injEq] at h
+      subst h
+      refine ⟨?_, (enumFrom_lt all 1).filter _⟩
+      intro k f
+      simp only [List.mem_filter, mem_enumFrom_one, PatDenotes, hr, Option.some.injEq]
+      constructor
+      · rintro ⟨h1, h2⟩; exact ⟨h1, m, f, rfl, h1, h2⟩
+      · rintro ⟨h1, m', f', rfl, h3, h4⟩
+        have := h1.unique h3; subst this
+        exact ⟨h1, h4⟩
+
+theorem matchList_spec {rx : Rx} {all : List Frame} {ps : List Pat} {ms : List (Nat × Frame)}
+    (h : matchList rx all ps = .ok ms) :
+    ∀ k f, (k, f) ∈ ms ↔ At all k f ∧ ∃ p ∈ ps, PatDenotes rx all p k := by
+  induction ps generalizing ms with
+  | nil =>
+    simp only [matchList, Except.ok.injEq] at h; subst h
+    intro k f; simp
+  | cons p ps ih =>
+    simp only [matchList, bind, Except.bind] at h
+    cases hm : allMatching rx p all with
+    | error e => simp [hm] at h
+    | ok m =>
+      cases hr : matchList rx all ps with
+      | error e => simp [hm, hr] at h
+      | ok rest =>
+        simp only [hm, hr, Except.ok.injEq] at h; subst h
+        intro k f
+        rw [List.mem_append, (allMatching_spec hm).1, ih hr]
+        constructor
+        · rintro (⟨h1, h2⟩ | ⟨h1, q, hq, h2⟩)
+          · exact ⟨h1, p, by simp, h2⟩
+          · exact ⟨h1, q, by simp [hq], h2⟩
+        · rintro ⟨h1, q, hq, h2⟩
+          rcases List.mem_cons.mp hq with rfl | hq
+          · exact Or.inl ⟨h1, h2⟩
+          · exact Or.inr ⟨h1, q, hq, h2⟩
+
+theorem consistent_of_At {all : List Frame} {l : List (Nat × Frame)} (h : ∀ x ∈ l, At all x.1 x.2) :
+    Consistent l := by
+  intro x hx y hy hk
+  have h1 := h x hx
+  have h2 := h y hy
+  rw [hk] at h1
+  exact h1.unique h2
+
+/-- No frames argument: the failing frame, under key 1. -/
+theorem C17_selection_none {rx : Rx} {all : List Frame} {r : List (Nat × Frame)}
+    (h : framesToSave rx .none all = .ok r) :
+    ∀ k f, (k, f) ∈ r ↔ At all k f ∧ k = 1 := by
+  cases all with
+  | nil => simp [framesToSave] at h
+  | cons f0 rest =>
+    simp only [framesToSave, Except.ok.injEq] at h; subst h
+    intro k f
+    simp only [List.mem_singleton, Prod.mk.injEq, At]
+    constructor
+    · rintro ⟨rfl, rfl⟩; simp
+    · rintro ⟨⟨_, h2⟩, rfl⟩; simp at h2; exact ⟨rfl, h2.symm⟩
+
+/-- NUM: exactly the first `min n len` frames, each under its 1-based distance from the failing frame
+    (no uniqueness loop in this format: the code returns before it). -/
+theorem C17_selection_num {rx : Rx} {all : List Frame} {n : Int} {r : List (Nat × Frame)}
+    (h : framesToSave rx (.num n) all = .ok r) :
+    (∀ k f, (k, f) ∈ r ↔ At all k f ∧ (k : Int) ≤ n) ∧ r.length = min n.toNat all.length := by
+  simp only [framesToSave, Except.ok.injEq] at h
+  subst h
+  constructor
+  · intro k f
+    rw [mem_enumFrom_one]
+    unfold At
+    rw [List.getElem?_take]
+    generalize hm : (if (all.length : Int) < n then all.length else n.toNat) = m
+    have hm' : k - 1 < all.length → 1 ≤ k → (k - 1 < m ↔ (k : Int) ≤ n) := by
+      intro hk h1; subst hm; split <;> omega
+    have hlen : all[k - 1]? = some f → k - 1 < all.length := by
+      intro h2
+      rcases Nat.lt_or_ge (k - 1) all.length with h | h
+      · exact h
+      · rw [List.getElem?_eq_none h] at h2; simp at h2
+    constructor
+    · rintro ⟨h1, h2⟩
+      by_cases hlt : k - 1 < m
+      · rw [if_pos hlt] at h2
+        exact ⟨⟨h1, h2⟩, (hm' (hlen h2) h1).mp hlt⟩
+      · rw [if_neg hlt] at h2; simp at h2
+    · rintro ⟨⟨h1, h2⟩, h3⟩
+      refine ⟨h1, ?_⟩
+      rw [if_pos ((hm' (hlen h2) h1).mpr h3)]
+      exact h2
+  · have hl : ∀ (l : List Frame) (i : Nat), (enumFrom i l).length = l.length := by
+      intro l; induction l with
+      | nil => intro i; rfl
+      | cons a as ih => intro i; simp [enumFrom, ih]
+    rw [hl, List.length_take]
+    split <;> omega
+
+/-- LIST (one frame or several): a key is saved iff some listed frame matches there and no smaller
+    matched key holds the same frame object ("duplicates keep the smallest index"). -/
+theorem C17_selection_list {rx : Rx} {all : List Frame} {ps : List Pat} {r : List (Nat × Frame)}
+    (h : framesToSave rx (.list ps) all = .ok r) :
+    ∀ k f, (k, f) ∈ r ↔
+      At all k f ∧ (∃ p ∈ ps, PatDenotes rx all p k) ∧
+      ∀ k' f', At all k' f' → (∃ p ∈ ps, PatDenotes rx all p k') → f'.fid = f.fid → k ≤ k' := by
+  simp only [framesToSave, bind, Except.bind] at h
+  cases hm : matchList rx all ps with
+  | error e => simp [hm] at h
+  | ok ms =>
+    simp only [hm, Except.ok.injEq] at h; subst h
+    have spec := matchList_spec hm
+    have hc : Consistent ms := consistent_of_At (all := all) (fun x hx => ((spec x.1 x.2).mp hx).1)
+    intro k f
+    rw [mem_sortDedup hc, spec]
+    constructor
+    · rintro ⟨⟨h1, h2⟩, h3⟩
+      exact ⟨h1, h2, fun k' f' hA hD hfid => h3 (k', f') ((spec k' f').mpr ⟨hA, hD⟩) hfid⟩
+    · rintro ⟨h1, h2, h3⟩
+      exact ⟨⟨h1, h2⟩, fun y hy hfid => h3 y.1 y.2 ((spec y.1 y.2).mp hy).1 ((spec y.1 y.2).mp hy).2 hfid⟩
+
+/-- an index that the pattern denotes and that is a position of the stack -/
+def Den (rx : Rx) (all : List Frame) (p : Pat) (k : Nat) : Prop := (∃ f, At all k f) ∧ PatDenotes rx all p k
+
+/-- RANGE `first..last` / `first..`: the saved keys are the closed interval between a first-match index `ka` and
+    a last-match index `kb` that are at least as far apart as any other pair of matches, minus later
+    duplicates of a frame object. -/
+theorem C17_selection_range {rx : Rx} {all : List Frame} {a b : Pat} {r : List (Nat × Frame)}
+    (h : framesToSave rx (.range a b) all = .ok r) :
+    ∃ ka kb, Den rx all a ka ∧ Den rx all b kb ∧
+      (∀ ka' kb', Den rx all a ka' → Den rx all b kb' → absDiff ka' kb' ≤ max ka kb - min ka kb) ∧
+      ∀ k f, (k, f) ∈ r ↔
+        At all k f ∧ min ka kb ≤ k ∧ k ≤ max ka kb ∧
+        ∀ k' f', At all k' f' → min ka kb ≤ k' → k' ≤ max ka kb → f'.fid = f.fid → k ≤ k' := by
+  simp only [framesToSave, bind, Except.bind] at h
+  cases hF : allMatching rx a all with
+  | error e => simp [hF] at h
+  | ok F =>
+    simp only [hF] at h
+    cases hFh : F.head? with
+    | none => simp [hFh] at h
+    | some fa =>
+      cases hFl : F.getLast? with
+      | none => simp [hFh, hFl] at h
+      | some fb =>
+        simp only [hFh, hFl] at h
+        cases hL : allMatching rx b all with
+        | error e => simp [hL] at h
+        | ok L =>
+          simp only [hL] at h
+          cases hLh : L.head? with
+          | none => simp [hLh] at h
+          | some la =>
+            cases hLl : L.getLast? with
+            | none => simp [hLh, hLl] at h
+            | some lb =>
+              simp only [hLh, hLl] at h
+              obtain ⟨sF, ltF⟩ := allMatching_spec hF
+              obtain ⟨sL, ltL⟩ := allMatching_spec hL
+              obtain ⟨x, y, hx, hy, hfar, hmax⟩ := farthest_spec fa.1 fb.1 la.1 lb.1
+              -- members
+              have mfa := head?_mem' hFh
+              have mfb := getLast?_mem' hFl
+              have mla := head?_mem' hLh
+              have mlb := getLast?_mem' hLl
+              have denF : ∀ z ∈ F, Den rx all a z.1 := fun z hz =>
+                ⟨⟨z.2, ((sF z.1 z.2).mp hz).1⟩, ((sF z.1 z.2).mp hz).2⟩
+              have denL : ∀ z ∈ L, Den rx all b z.1 := fun z hz =>
+                ⟨⟨z.2, ((sL z.1 z.2).mp hz).1⟩, ((sL z.1 z.2).mp hz).2⟩
+              have dx : Den rx all a x := by
+                rcases hx with rfl | rfl
+                · exact denF _ mfa
+                · exact denF _ mfb
+              have dy : Den rx all b y := by
+                rcases hy with rfl | rfl
+                · exact denL _ mla
+                · exact denL _ mlb
+              -- bounds on the interval
+              have hx1 : 1 ≤ x := by obtain ⟨⟨f, h1, _⟩, _⟩ := dx; exact h1
+              have hy1 : 1 ≤ y := by obtain ⟨⟨f, h1, _⟩, _⟩ := dy; exact h1
+              have hlen : ∀ {k}, (∃ f, At all k f) → k ≤ all.length := by
+                rintro k ⟨f, h1, h2⟩
+                rcases Nat.lt_or_ge (k - 1) all.length with h | h
+                · omega
+                · rw [List.getElem?_eq_none h] at h2; simp at h2
+              have hxl := hlen dx.1
+              have hyl := hlen dy.1
+              rw [hfar] at h
+              simp only at h
+              obtain ⟨items, hit, hmem⟩ := rangeItems_ok (all := all) (lo := min x y) (n := max x y + 1 - min x y)
+                (by omega) (by omega)
+              simp only [hit, Except.ok.injEq] at h
+              subst h
+              refine ⟨x, y, dx, dy, ?_, ?_⟩
+              · intro ka' kb' hka hkb
+                obtain ⟨⟨f1, hA1⟩, hP1⟩ := hka
+                obtain ⟨⟨f2, hA2⟩, hP2⟩ := hkb
+                have m1 : (ka', f1) ∈ F := (sF ka' f1).mpr ⟨hA1, hP1⟩
+                have m2 : (kb', f2) ∈ L := (sL kb' f2).mpr ⟨hA2, hP2⟩
+                exact hmax ka' kb' (head_le_of_lt ltF hFh _ m1) (le_last_of_lt ltF hFl _ m1)
+                  (head_le_of_lt ltL hLh _ m2) (le_last_of_lt ltL hLl _ m2)
+              · have hc : Consistent items :=
+                  consistent_of_At (all := all) (fun z hz => ((hmem z.1 z.2).mp hz).2.2)
+                intro k f
+                rw [mem_sortDedup hc, hmem]
+                constructor
+                · rintro ⟨⟨h1, h2, h3⟩, h4⟩
+                  refine ⟨h3, h1, by omega, ?_⟩
+                  intro k' f' hA hlo hhi hfid
+                  exact h4 (k', f') ((hmem k' f').mpr ⟨hlo, by omega, hA⟩) hfid
+                · rintro ⟨h1, h2, h3, h4⟩
+                  refine ⟨⟨h2, by omega, h1⟩, ?_⟩
+                  intro z hz hfid
+                  obtain ⟨z1, z2, z3⟩ := (hmem z.1 z.2).mp hz
+                  exact h4 z.1 z.2 z3 z1 (by omega) hfid
+
+/-- Every saved key is the 1-based distance of its frame from the failing frame, and the keys are
+    strictly increasing (so the keys of the saved dict are distinct and in this order). -/
+theorem C17_selection_keys {rx : Rx} {p : Parsed} {all : List Frame} {r : List (Nat × Frame)}
+    (h : framesToSave rx p all = .ok r) :
+    (∀ x ∈ r, At all x.1 x.2) ∧ r.Pairwise (fun x y => x.1 < y.1) := by
+  cases p with
+  | none =>
+    have s := C17_selection_none h
+    cases all with
+    | nil => simp [framesToSave] at h
+    | cons f0 rest =>
+      simp only [framesToSave, Except.ok.injEq] at h; subst h
+      exact ⟨fun x hx => ((s x.1 x.2).mp hx).1, by simp⟩
+  | num n =>
+    have s := (C17_selection_num h).1
+    refine ⟨fun x hx => ((s x.1 x.2).mp hx).1, ?_⟩
+    simp only [framesToSave, Except.ok.injEq] at h; subst h
+    exact enumFrom_lt _ _
+  | list ps =>
+    have s := C17_selection_list h
+    refine ⟨fun x hx => ((s x.1 x.2).mp hx).1, ?_⟩
+    simp only [framesToSave, bind, Except.bind] at h
+    cases hm : matchList rx all ps with
+    | error e => simp [hm] at h
+    | ok ms =>
+      simp only [hm, Except.ok.injEq] at h; subst h
+      exact sortDedup_lt (consistent_of_At (all := all) (fun x hx => ((matchList_spec hm x.1 x.2).mp hx).1))
+  | range a b =>
+    obtain ⟨ka, kb, _, _, _, s⟩ := C17_selection_range h
+    have hA : ∀ x ∈ r, At all x.1 x.2 := fun x hx => ((s x.1 x.2).mp hx).1
+    refine ⟨hA, ?_⟩
+    -- r = sortDedup items for some items; recover it from the definition
+    simp only [framesToSave, bind, Except.bind] at h
+    cases hF : allMatching rx a all with
+    | error e => simp [hF] at h
+    | ok F =>
+      simp only [hF] at h
+      cases hFh : F.head? with
+      | none => simp [hFh] at h
+      | some fa =>
+        cases hFl : F.getLast? with
+        | none => simp [hFh, hFl] at h
+        | some fb =>
+          simp only [hFh, hFl] at h
+          cases hL : allMatching rx b all with
+          | error e => simp [hL] at h
+          | ok L =>
+            simp only [hL] at h
+            cases hLh : L.head? with
+            | none => simp [hLh] at h
+            | some la =>
+              cases hLl : L.getLast? with
+              | none => simp [hLh, hLl] at h
+              | some lb =>
+                simp only [hLh, hLl] at h
+                split at h
+                · simp at h
+                · rename_i items hit
+                  simp only [Except.ok.injEq] at h
+                  subst h
+                  have hsub : (sortDedup items).Sublist (sortKeys items) := dedupGo_sublist [] _
+                  have hcons : Consistent (sortDedup items) := consistent_of_At (all := all) hA
+                  have hle := (sorted_sortKeys items).sublist hsub
+                  have := hle.and (sortDedup_fids items)
+                  refine List.Pairwise.imp_of_mem ?_ this
+                  intro u v hu hv ⟨h1, h2⟩
+                  rcases Nat.lt_or_ge u.1 v.1 with h | h
+                  · exact h
+                  · have hk : u.1 = v.1 := Nat.le_antisymm h1 h
+                    exact absurd (congrArg Frame.fid (hcons u hu v hv hk)) h2
+
+/-- LIST and RANGE never save one frame object twice. -/
+theorem C17_selection_unique_frames {rx : Rx} {all : List Frame} {p : Parsed} {r : List (Nat × Frame)}
+    (hp : ∀ n, p ≠ .num n) (h : framesToSave rx p all = .ok r) :
+    r.Pairwise (fun x y => x.2.fid ≠ y.2.fid) := by
+  cases p with
+  | none =>
+    cases all with
+    | nil => simp [framesToSave] at h
+    | cons f0 rest => simp only [framesToSave, Except.ok.injEq] at h; subst h; simp
+  | num n => exact absurd rfl (hp n)
+  | list ps =>
+    simp only [framesToSave, bind, Except.bind] at h
+    cases hm : matchList rx all ps with
+    | error e => simp [hm] at h
+    | ok ms => simp only [hm, Except.ok.injEq] at h; subst h; exact sortDedup_fids _
+  | range a b =>
+    simp only [framesToSave, bind, Except.bind] at h
+    cases hF : allMatching rx a all with
+    | error e => simp [hF] at h
+    | ok F =>
+      simp only [hF] at h
+      split at h
+      · cases hL : allMatching rx b all with
+        | error e => simp [hL] at h
+        | ok L =>
+          simp only [hL] at h
+          split at h
+          · split at h
+            · simp at h
+            · simp only [Except.ok.injEq] at h; subst h; exact sortDedup_fids _
+          · simp at h
+      · simp at h
+
+/-- The selection step fails only in the documented ways: an exception without any frame
+    (`IndexError`), a regex that does not compile, a range end that matches nothing.  The
+    `internal` branches of the model (Python's `all_frames[-1]`, a malformed parse) are unreachable. -/
+theorem C17_selection_total {rx : Rx} {p : Parsed} {all : List Frame} {e : Err}
+    (h : framesToSave rx p all = .error e) :
+    (e = .noFrames ∧ all = []) ∨ e = .regexError ∨ e = .rangeNoMatch := by
+  have hAM : ∀ {q : Pat} {e' : Err}, allMatching rx q all = .error e' →
+      (e' = .noFrames ∧ all = []) ∨ e' = .regexError := by
+    intro q e' hq
+    cases q with
+    | openEnd =>
+      cases all with
+      | nil => simp only [allMatching, Except.error.injEq] at hq; exact Or.inl ⟨hq.symm, rfl⟩
+      | cons f0 rest => simp [allMatching] at hq
+    | pat r line fn =>
+      simp only [allMatching] at hq
+      split at hq
+      · split at hq
+        · simp at hq
+        · simp only [Except.error.injEq] at hq; exact Or.inr hq.symm
+      · simp at hq
+  cases p with
+  | none =>
+    cases all with
+    | nil => simp only [framesToSave, Except.error.injEq] at h; exact Or.inl ⟨h.symm, rfl⟩
+    | cons f0 rest => simp [framesToSave] at h
+  | num n => simp [framesToSave] at h
+  | list ps =>
+    simp only [framesToSave, bind, Except.bind] at h
+    cases hm : matchList rx all ps with
+    | ok ms => simp [hm] at h
+    | error e' =>
+      simp only [hm, Except.error.injEq] at h; subst h
+      induction ps with
+      | nil => simp [matchList] at hm
+      | cons q qs ih =>
+        simp only [matchList, bind, Except.bind] at hm
+        cases hq : allMatching rx q all with
+        | error e2 =>
+          simp only [hq, Except.error.injEq] at hm; subst hm
+          rcases hAM hq with h | h
+          · exact Or.inl h
+          · exact Or.inr (Or.inl h)
+        | ok m =>
+          simp only [hq] at hm
+          cases hr : matchList rx all qs with
+          | error e2 => simp only [hr, Except.error.injEq] at hm; subst hm; exact ih hr
+          | ok rest => simp [hr] at hm
+  | range a b =>
+    simp only [framesToSave, bind, Except.bind] at h
+    cases hF : allMatching rx a all with
+    | error e' =>
+      simp only [hF, Except.error.injEq] at h; subst h
+      rcases hAM hF with h | h
+      · exact Or.inl h
+      · exact Or.inr (Or.inl h)
+    | ok F =>
+      simp only [hF] at h
+      cases hFh : F.head? with
+      | none => simp only [hFh, Except.error.injEq] at h; exact Or.inr (Or.inr h.symm)
+      | some fa =>
+        cases hFl : F.getLast? with
+        | none => simp only [hFh, hFl, Except.error.injEq] at h; exact Or.inr (Or.inr h.symm)
+        | some fb =>
+          simp only [hFh, hFl] at h
+          cases hL : allMatching rx b all with
+          | error e' =>
+            simp only [hL, Except.error.injEq] at h; subst h
+            rcases hAM hL with h | h
+            · exact Or.inl h
+            · exact Or.inr (Or.inl h)
+          | ok L =>
+            simp only [hL] at h
+            cases hLh : L.head? with
+            | none => simp only [hLh, Except.error.injEq] at h; exact Or.inr (Or.inr h.symm)
+            | some la =>
+              cases hLl : L.getLast? with
+              | none => simp only [hLh, hLl, Except.error.injEq] at h; exact Or.inr (Or.inr h.symm)
+              | some lb =>
+                exfalso
+                simp only [hLh, hLl] at h
+                obtain ⟨sF, _⟩ := allMatching_spec hF
+                obtain ⟨sL, _⟩ := allMatching_spec hL
+                obtain ⟨x, y, hx, hy, hfar, _⟩ := farthest_spec fa.1 fb.1 la.1 lb.1
+                have atF : ∀ z ∈ F, At all z.1 z.2 := fun z hz => ((sF z.1 z.2).mp hz).1
+                have atL : ∀ z ∈ L, At all z.1 z.2 := fun z hz => ((sL z.1 z.2).mp hz).1
+                have hlen : ∀ {k f}, At all k f → 1 ≤ k ∧ k ≤ all.length := by
+                  rintro k f ⟨h1, h2⟩
+                  rcases Nat.lt_or_ge (k - 1) all.length with h | h
+                  · omega
+                  · rw [List.getElem?_eq_none h] at h2; simp at h2
+                have bx : 1 ≤ x ∧ x ≤ all.length := by
+                  rcases hx with rfl | rfl
+                  · exact hlen (atF _ (head?_mem' hFh))
+                  · exact hlen (atF _ (getLast?_mem' hFl))
+                have byy : 1 ≤ y ∧ y ≤ all.length := by
+                  rcases hy with rfl | rfl
+                  · exact hlen (atL _ (head?_mem' hLh))
+                  · exact hlen (atL _ (getLast?_mem' hLl))
+                rw [hfar] at h
+                simp only at h
+                obtain ⟨items, hit, _⟩ := rangeItems_ok (all := all) (lo := min x y)
+                  (n := max x y + 1 - min x y) (by omega) (by omega)
+                simp [hit] at h
+
+/-! ### the hypotheses of the selection theorems are met by non-trivial inputs -/
+section Examples
+
+private def fr (fid : Nat) (file : String) (line : Nat) (name : String) : Frame :=
+  ⟨fid, file.toList, line, name.toList, name.toList, [], [], [], []⟩
+/-- a stand-in for `re.search`: prefix match; the regex "(" does not compile -/
+private def exRx : Rx := fun r => if r = "(".toList then none else some (fun file => r.isPrefixOf file)
+/-- a chained exception: the frame object 0 (`f` in a.py) is in both tracebacks -/
+private def exAll : List Frame := [fr 0 "a.py" 9 "f", fr 1 "b.py" 4 "g", fr 0 "a.py" 9 "f", fr 2 "b.py" 7 "h"]
+
+-- RANGE a.py::..b.py:: — first matches {1,3}, last matches {2,4}; farthest pair (1,4); frame object 0 kept once
+example : framesToSave exRx (.range (.pat "a".toList none []) (.pat "b".toList none [])) exAll =
+    .ok [(1, fr 0 "a.py" 9 "f"), (2, fr 1 "b.py" 4 "g"), (4, fr 2 "b.py" 7 "h")] := by rfl
+-- open RANGE b.py:7:.. — from the match down to the failing frame
+example : framesToSave exRx (.range (.pat "b".toList (some 7) []) .openEnd) exAll =
+    .ok [(1, fr 0 "a.py" 9 "f"), (2, fr 1 "b.py" 4 "g"), (4, fr 2 "b.py" 7 "h")] := by rfl
+-- LIST [a.py::, b.py::h]
+example : framesToSave exRx (.list [.pat "a".toList none [], .pat "b".toList none "h".toList]) exAll =
+    .ok [(1, fr 0 "a.py" 9 "f"), (4, fr 2 "b.py" 7 "h")] := by rfl
+-- NUM 3 keeps the duplicate (no uniqueness loop in this format); NUM 9 is clamped; NUM -1 saves nothing
+example : (framesToSave exRx (.num 3) exAll).toOption.map (·.map (·.1)) = some [1, 2, 3] := by rfl
+example : (framesToSave exRx (.num 9) exAll).toOption.map (·.map (·.1)) = some [1, 2, 3, 4] := by rfl
+example : framesToSave exRx (.num (-1)) exAll = .ok [] := by rfl
+-- the three error outcomes of `C17_selection_total`
+example : framesToSave exRx (.range (.pat "zzz".toList none []) .openEnd) exAll = .error .rangeNoMatch := by rfl
+example : framesToSave exRx (.list [.pat "(".toList none []]) exAll = .error .regexError := by rfl
+example : framesToSave exRx .none [] = .error .noFrames := by rfl
+-- parsing: the selector strings of the documentation
+example : validateFrames (.str "a.py::..b.py:7:h".toList) .function =
+    .ok (.range (.pat "a.py".toList none []) (.pat "b.py".toList (some 7) "h".toList)) := by rfl
+example : validateFrames (.str " 1_0 ".toList) .function = .ok (.num 10) := by rfl
+example : validateFrames (.str "a::,b::".toList) .function = .error .framesCommaStr := by rfl
+example : validateFrames (.str "a::,b::".toList) .script =
+    .ok (.list [.pat "a".toList none [], .pat "b".toList none []]) := by rfl
+
+end Examples
+
+/-! ## 2. variable filters -/
+
+/-- the names the user listed, before validation -/
+def rawNames : VarArg → List Str
+  | .none => []
+  | .str s => (splitOnChar ',' s).map strip
+  | .list l => l.filterMap (fun | .s v => some v | .other => none)
+  | .other _ => []
+
+theorem itemStrs_eq {l : List VarItem} {ss : List Str} (h : itemStrs l = some ss) :
+    ss = l.filterMap (fun | .s v => some v | .other => none) := by
+  induction l generalizing ss with
+  | nil => simp [itemStrs] at h; subst h; rfl
+  | cons a as ih =>
+    cases a with
+    | s v =>
+      simp only [itemStrs, Option.map_eq_some_iff] at h
+      obtain ⟨t, ht, rfl⟩ := h
+      simp [ih ht]
+    | other => simp [itemStrs] at h
+
+theorem validateVars_ok {a : VarArg} {u : Util} {r : Option (List Str)} (h : validateVars a u = .ok r) :
+    (a = .none ∧ r = none) ∨ (a ≠ .none ∧ r = some ((rawNames a).filter validName)) := by
+  cases a with
+  | none => simp [validateVars] at h; exact Or.inl ⟨rfl, h.symm⟩
+  | str s =>
+    simp only [validateVars] at h
+    split at h
+    · simp at h
+    · simp only [Except.ok.injEq] at h; exact Or.inr ⟨by simp, by simp [rawNames, ← h]⟩
+  | list l =>
+    simp only [validateVars] at h
+    split at h
+    · simp at h
+    · rename_i ss hss
+      simp only [Except.ok.injEq] at h
+      exact Or.inr ⟨by simp, by simp [rawNames, ← h, itemStrs_eq hss]⟩
+  | other t => simp [validateVars] at h
+
+/-- the documented meaning of the two filters for one local variable -/
+def Retained (a : Args) (l : Local) : Prop :=
+  isDunder l.name = false ∧ (a.vars.truthy = true → l.name ∈ rawNames a.vars) ∧
+  l.name ∉ rawNames a.excl ∧ l.picklable = true
+
+/-- D7 does not strike: the include list, if one was passed, still has a valid name after validation. -/
+def d7free (a : Args) : Bool := !(a.vars.truthy && ((rawNames a.vars).filter validName).isEmpty)
+
+theorem mem_localsData {cfg : Cfg} {incl excl : Option (List Str)} {ls : List Local} {n val : Str} :
+    (n, val) ∈ localsData cfg incl excl ls ↔
+      ∃ l ∈ ls, l.name = n ∧ l.val = val ∧ isDunder l.name = false ∧
+        (inclActive cfg incl = true → l.name ∈ incl.getD []) ∧ l.name ∉ excl.getD [] ∧ l.picklable = true := by
+  simp only [localsData, List.mem_map, List.mem_filter, keepLocal, Bool.and_eq_true, Bool.not_eq_true',
+    Prod.mk.injEq]
+  constructor
+  · rintro ⟨l, ⟨hl, ⟨⟨h1, h2⟩, h3⟩, h4⟩, rfl, rfl⟩
+    refine ⟨l, hl, rfl, rfl, h1, ?_, ?_, h4⟩
+    · intro hact
+      simp only [hact, Bool.true_and, Bool.not_eq_false', List.contains_eq_mem, decide_eq_true_eq] at h2
+      simpa using h2
+    · simpa using h3
+  · rintro ⟨l, hl, rfl, rfl, h1, h2, h3, h4⟩
+    refine ⟨l, ⟨hl, ⟨⟨h1, ?_⟩, ?_⟩, h4⟩, rfl, rfl⟩
+    · cases hact : inclActive cfg incl with
+      | false => simp
+      | true => simpa using h2 hact
+    · simpa using h3
+
+/-- unpacking of `_validate_saveframe_arguments` -/
+theorem validateArgs_ok {cfg : Cfg} {a : Args} {v : Valid} (h : validateArgs cfg a = .ok v) :
+    ∃ vi, validateVars a.vars a.util = .ok vi ∧ validateVars a.excl a.util = .ok v.excl ∧
+      (a.vars.truthy && a.excl.truthy) = false ∧
+      v.incl = (if cfg.d7fixed && !a.vars.truthy then none else vi) ∧
+      validateFrames a.frames a.util = .ok v.sel := by
+  simp only [validateArgs, bind, Except.bind] at h
+  cases hf : validateFrames a.frames a.util with
+  | error e => simp [hf] at h
+  | ok sel =>
+    simp only [hf] at h
+    cases hb : (a.vars.truthy && a.excl.truthy) with
+    | true => simp [hb] at h
+    | false =>
+      simp only [hb, Bool.false_eq_true, if_false] at h
+      cases hv : validateVars a.vars a.util with
+      | error e => simp [hv] at h
+      | ok vi =>
+        simp only [hv] at h
+        cases hx : validateVars a.excl a.util with
+        | error e => simp [hx] at h
+        | ok xi =>
+          simp only [hx, Except.ok.injEq] at h
+          subst h
+          exact ⟨vi, rfl, rfl, rfl, rfl, rfl⟩
+
+/-- Core of both filter theorems: when the include list is "in force" exactly if one was passed. -/
+theorem filter_core {cfg : Cfg} {a : Args} {v : Valid} {ls : List Local}
+    (hv : validateArgs cfg a = .ok v)
+    (hact : inclActive cfg v.incl = a.vars.truthy)
+    (hnames : ∀ l ∈ ls, validName l.name = true) (n val : Str) :
+    (n, val) ∈ localsData cfg v.incl v.excl ls ↔ ∃ l ∈ ls, l.name = n ∧ l.val = val ∧ Retained a l := by
+  obtain ⟨vi, hvi, hxi, hboth, hincl, _⟩ := validateArgs_ok hv
+  rw [mem_localsData]
+  have hexcl : ∀ l ∈ ls, (l.name ∈ v.excl.getD [] ↔ l.name ∈ rawNames a.excl) := by
+    intro l hl
+    rcases validateVars_ok hxi with ⟨h1, h2⟩ | ⟨_, h2⟩
+    · simp [h2, h1, rawNames]
+    · simp [h2, List.mem_filter, hnames l hl]
+  have hinc : ∀ l ∈ ls, a.vars.truthy = true → (l.name ∈ v.incl.getD [] ↔ l.name ∈ rawNames a.vars) := by
+    intro l hl ht
+    rw [hincl]
+    simp only [ht, Bool.not_true, Bool.and_false, Bool.false_eq_true, if_false]
+    rcases validateVars_ok hvi with ⟨h1, _⟩ | ⟨_, h2⟩
+    · simp [h1, VarArg.truthy] at ht
+    · simp [h2, List.mem_filter, hnames l hl]
+  constructor
+  · rintro ⟨l, hl, h1, h2, h3, h4, h5, h6⟩
+    refine ⟨l, hl, h1, h2, h3, ?_, ?_, h6⟩
+    · intro ht; exact (hinc l hl ht).mp (h4 (hact.trans ht))
+    · exact fun h => h5 ((hexcl l hl).mpr h)
+  · rintro ⟨l, hl, h1, h2, h3, h4, h5, h6⟩
+    refine ⟨l, hl, h1, h2, h3, ?_, ?_, h6⟩
+    · intro ha
+      have ht : a.vars.truthy = true := hact.symm.trans ha
+      exact (hinc l hl ht).mpr (h4 ht)
+    · exact fun h => h5 ((hexcl l hl).mp h)
+
+/-
+  TARGET (full strength; FALSE for the code as found because of D7, see `Witness` below):
+
+    theorem C17_filter (a v ls) (hv : validateArgs {} a = .ok v) (hnames : ∀ l ∈ ls, validName l.name) :
+      ∀ n val, (n, val) ∈ localsData {} v.incl v.excl ls ↔ ∃ l ∈ ls, l.name = n ∧ l.val = val ∧ Retained a l
+-/
+
+/-- The code as found: a saved variable is a non-dunder, included (when an include list was passed), not
+    excluded, picklable local with its live value — and conversely — PROVIDED D7 does not strike. -/
+theorem C17_filter_partial {a : Args} {v : Valid} {ls : List Local}
+    (hv : validateArgs {} a = .ok v) (hfree : d7free a = true)
+    (hnames : ∀ l ∈ ls, validName l.name = true) (n val : Str) :
+    (n, val) ∈ localsData {} v.incl v.excl ls ↔ ∃ l ∈ ls, l.name = n ∧ l.val = val ∧ Retained a l := by
+  refine filter_core hv ?_ hnames n val
+  obtain ⟨vi, hvi, _, _, hincl, _⟩ := validateArgs_ok hv
+  simp only [Bool.false_and, Bool.false_eq_true, if_false] at hincl
+  rw [hincl]
+  rcases validateVars_ok hvi with ⟨h1, h2⟩ | ⟨_, h2⟩
+  · simp [h2, h1, inclActive, VarArg.truthy]
+  · subst h2
+    simp only [inclActive, Bool.false_or]
+    simp only [d7free, Bool.not_eq_true', Bool.and_eq_false_iff] at hfree
+    cases ht : a.vars.truthy with
+    | true =>
+      rcases hfree with h | h
+      · simp [ht] at h
+      · simpa using h
+    | false =>
+      -- nothing passed ('' or []): the validated list is empty
+      cases hva : a.vars with
+      | none => simp [hva] at *
+      | str s =>
+        simp only [hva, VarArg.truthy, Bool.not_eq_false', List.isEmpty_iff] at ht
+        subst ht
+        simp [rawNames, splitOnChar, strip, validName, isIdent]
+      | list l =>
+        simp only [hva, VarArg.truthy, Bool.not_eq_false', List.isEmpty_iff] at ht
+        subst ht
+        simp [rawNames]
+      | other t => simp [hva, validateVars] at hvi
+
+/-- With fixes/C17-D7.diff (`d7fixed`): the full-strength statement, no side condition. -/
+theorem C17_filter_fixed {cfg : Cfg} (hd7 : cfg.d7fixed = true) {a : Args} {v : Valid} {ls : List Local}
+    (hv : validateArgs cfg a = .ok v)
+    (hnames : ∀ l ∈ ls, validName l.name = true) (n val : Str) :
+    (n, val) ∈ localsData cfg v.incl v.excl ls ↔ ∃ l ∈ ls, l.name = n ∧ l.val = val ∧ Retained a l := by
+  refine filter_core hv ?_ hnames n val
+  obtain ⟨vi, hvi, _, _, hincl, _⟩ := validateArgs_ok hv
+  rw [hincl]
+  cases ht : a.vars.truthy with
+  | false => simp [hd7, inclActive]
+  | true =>
+    simp only [hd7, Bool.not_true, Bool.and_false, Bool.false_eq_true, if_false]
+    rcases validateVars_ok hvi with ⟨h1, _⟩ | ⟨_, h2⟩
+    · simp [h1, VarArg.truthy] at ht
+    · simp [h2, inclActive, hd7]
+
+/-- making one variable unpicklable -/
+def setUnpicklable (x : Str) (l : Local) : Local :=
+  if l.name = x then { l with picklable := false } else l
+
+/-- A variable that cannot be pickled is skipped without affecting the others: the saved
+    mapping of a frame loses exactly the entries of that name; order and values of the rest stay. -/
+theorem C17_skip_independent (cfg : Cfg) (incl excl : Option (List Str)) (ls : List Local) (x : Str) :
+    localsData cfg incl excl (ls.map (setUnpicklable x)) =
+      (localsData cfg incl excl ls).filter (fun p => p.1 ≠ x) := by
+  induction ls with
+  | nil => rfl
+  | cons l rest ih =>
+    simp only [localsData] at ih ⊢
+    simp only [List.map_cons, List.filter_cons]
+    by_cases hx : l.name = x
+    · have h1 : keepLocal cfg incl excl (setUnpicklable x l) = false := by
+        simp [keepLocal, setUnpicklable, hx]
+      simp only [h1, Bool.false_eq_true, if_false]
+      by_cases hk : keepLocal cfg incl excl l = true
+      · simp only [hk, if_true, List.map_cons, List.filter_cons, hx, ne_eq, not_true_eq_false,
+          decide_false, Bool.false_eq_true, if_false]
+        exact ih
+      · simp only [hk, Bool.false_eq_true, if_false]; exact ih
+    · have h1 : setUnpicklable x l = l := by simp [setUnpicklable, hx]
+      rw [h1]
+      by_cases hk : keepLocal cfg incl excl l = true
+      · simp only [hk, if_true, List.map_cons, List.filter_cons, ne_eq, hx, not_false_eq_true,
+          decide_true, if_true]
+        rw [ih]
+      · simp only [hk, Bool.false_eq_true, if_false]; exact ih
+
+example : localsData {} none none
+      ([⟨"a".toList, "1".toList, true⟩, ⟨"b".toList, "2".toList, true⟩].map (setUnpicklable "a".toList))
+    = [("b".toList, "2".toList)] := by decide
+
+/-! ## 3. file mode -/
+
+/-- A file that did not exist is created with mode 0644 whatever the process umask, and the
+    umask is restored. -/
+theorem C17_mode (u : Nat) : openFile ⟨none, u⟩ = ⟨some 0o644, u⟩ := by
+  simp [openFile, osOpenCreat]
+
+/-- A pre-existing file keeps its mode (outside the umask quantifier). -/
+theorem C17_mode_existing (m u : Nat) : openFile ⟨some m, u⟩ = ⟨some m, u⟩ := by
+  simp [openFile, osOpenCreat]
+
+/-- …and clearing the umask is what makes it so: the bare `os.open` under umask 077 gives 0600. -/
+example : osOpenCreat ⟨none, 0o077⟩ 0o644 = ⟨some 0o600, 0o077⟩ := by decide
+
+/-! ## 4. reader -/
+open Reader in
+theorem findEntry_iff {d : Data} (hk : d.entries.Pairwise (fun a b => a.key ≠ b.key)) (k : Nat) (e : Entry) :
+    findEntry d (k : Int) = some e ↔ e ∈ d.entries ∧ e.key = k := by
+  unfold findEntry
+  generalize d.entries = es at hk
+  induction es with
+  | nil => simp
+  | cons a as ih =>
+    have hk' := List.pairwise_cons.mp hk
+    simp only [List.find?_cons]
+    by_cases ha : a.key = k
+    · have : ((a.key : Int) == (k : Int)) = true := by simp [ha]
+      simp only [this, Option.some.injEq, List.mem_cons]
+      constructor
+      · rintro rfl; exact ⟨Or.inl rfl, ha⟩
+      · rintro ⟨h1 | h1, h2⟩
+        · exact h1.symm
+        · exact absurd (ha.trans h2.symm) (hk'.1 e h1)
+    · have : ((a.key : Int) == (k : Int)) = false := by simp; omega
+      simp only [this, List.mem_cons]
+      rw [ih hk'.2]
+      constructor
+      · rintro ⟨h1, h2⟩; exact ⟨Or.inr h1, h2⟩
+      · rintro ⟨h1 | h1, h2⟩
+        · subst h1; exact absurd h2 ha
+        · exact ⟨h1, h2⟩
+
+theorem lookup_iff {l : List (Str × Str)} (hn : (l.map (·.1)).Nodup) (n v : Str) :
+    Reader.lookup n l = some v ↔ (n, v) ∈ l := by
+  induction l with
+  | nil => simp [Reader.lookup]
+  | cons a as ih =>
+    obtain ⟨a1, a2⟩ := a
+    simp only [List.map_cons, List.nodup_cons] at hn
+    simp only [Reader.lookup, List.mem_cons, Prod.mk.injEq]
+    by_cases h : a1 = n
+    · subst h
+      simp only [if_true, Option.some.injEq, true_and]
+      constructor
+      · intro h; exact Or.inl h.symm
+      · rintro (h | h)
+        · exact h.symm
+        · exact absurd (List.mem_map.mpr ⟨(a1, v), h, rfl⟩) hn.1
+    · simp only [h, if_false]
+      rw [ih hn.2]
+      constructor
+      · exact Or.inr
+      · rintro (⟨h1, _⟩ | h1)
+        · exact absurd h1.symm h
+        · exact h1
+
+theorem pick_single (n : Str) (vars : List (Str × Str)) :
+    Reader.pick [n] vars = match Reader.lookup n vars with
+      | some x => [(n, x)]
+      | none => [] := by
+  have h : [n].eraseDups = [n] := rfl
+  simp only [Reader.pick, h, List.filterMap_cons, List.filterMap_nil]
+  cases Reader.lookup n vars <;> rfl
+
+/-- `get_variables('name', frame_idx=k)` returns exactly the value saved for `name` in frame `k`. -/
+theorem C17_reader_variable_at {d : Reader.Data}
+    (hk : d.entries.Pairwise (fun a b => a.key ≠ b.key))
+    (hn : ∀ e ∈ d.entries, (e.vars.map (·.1)).Nodup) (n val : Str) (k : Nat) :
+    Reader.getVariables d (.single n) (.int k) = .ok (.v val) ↔
+      ∃ e ∈ d.entries, e.key = k ∧ (n, val) ∈ e.vars := by
+  simp only [Reader.getVariables, List.isEmpty_cons, Bool.false_eq_true, if_false]
+  cases hf : Reader.findEntry d (k : Int) with
+  | none =>
+    simp only
+    constructor
+    · intro h; simp at h
+    · rintro ⟨e, he, hkey, _⟩
+      have := (findEntry_iff hk k e).mpr ⟨he, hkey⟩
+      rw [hf] at this; simp at this
+  | some e =>
+    obtain ⟨he, hkey⟩ := (findEntry_iff hk k e).mp hf
+    simp only [pick_single]
+    cases hl : Reader.lookup n e.vars with
+    | none =>
+      simp only
+      constructor
+      · intro h; simp at h
+      · rintro ⟨e', he', hkey', hv⟩
+        have : e' = e := by
+          have := (findEntry_iff hk k e').mpr ⟨he', hkey'⟩
+          rw [hf] at this; simpa using this.symm
+        subst this
+        have := (lookup_iff (hn e' he') n val).mpr hv
+        rw [hl] at this; simp at this
+    | some x =>
+      simp only [Except.ok.injEq, Reader.RVal.v.injEq]
+      constructor
+      · rintro rfl
+        exact ⟨e, he, hkey, (lookup_iff (hn e he) n x).mp hl⟩
+      · rintro ⟨e', he', hkey', hv⟩
+        have : e' = e := by
+          have := (findEntry_iff hk k e').mpr ⟨he', hkey'⟩
+          rw [hf] at this; simpa using this.symm
+        subst this
+        have := (lookup_iff (hn e' he') n val).mpr hv
+        rw [hl] at this; simpa using this
+
+/-- `get_variables('name')`: the map frame index ↦ value over the frames that saved `name`,
+    returned bare when there is one such frame; `get_variables(['n1', …])`, `…, frame_idx=k)` analogous. -/
+theorem C17_reader_variable_all (d : Reader.Data) (n : Str) :
+    Reader.getVariables d (.single n) .none =
+      (match d.entries.filterMap (fun e => (Reader.lookup n e.vars).map (fun v => (e.key, v))) with
+       | [] => .error .notFound
+       | [(_, v)] => .ok (.v v)
+       | ps => .ok (.m ps)) := by
+  simp only [Reader.getVariables, List.isEmpty_cons, Bool.false_eq_true, if_false]
+  have hper : Reader.perFrame [n] d.entries =
+      (d.entries.filterMap (fun e => (Reader.lookup n e.vars).map (fun v => (e.key, v)))).map
+        (fun kv => (kv.1, [(n, kv.2)])) := by
+    unfold Reader.perFrame
+    induction d.entries with
+    | nil => rfl
+    | cons e es ih =>
+      simp only [List.filterMap_cons]
+      rw [pick_single n e.vars]
+      cases hl : Reader.lookup n e.vars with
+      | none => simpa using ih
+      | some x => simp only [Option.map_some, List.map_cons]; rw [ih]
+  rw [hper]
+  generalize d.entries.filterMap (fun e => (Reader.lookup n e.vars).map (fun v => (e.key, v))) = ps
+  match ps with
+  | [] => rfl
+  | [(k, v)] => rfl
+  | (k1, v1) :: (k2, v2) :: rest =>
+    simp only [List.map_cons, List.map_map]
+    congr 2
+    simp [Function.comp_def]
+
+/-- `get_metadata(field, frame_idx=k)` returns the saved field of frame `k`;
+    `get_metadata(field)` the map over all saved frames. -/
+theorem C17_reader_metadata {d : Reader.Data}
+    (hk : d.entries.Pairwise (fun a b => a.key ≠ b.key)) (field : Str)
+    (hf : field ∈ Reader.frameFields) :
+    (∀ e ∈ d.entries, Reader.getMetadata d field (.int e.key) = .ok (.v (Reader.frameField e field))) ∧
+    Reader.getMetadata d field .none = .ok (.m (d.entries.map fun e => (e.key, Reader.frameField e field))) := by
+  have h1 : (Reader.frameFields ++ Reader.excFields).contains field = true := by
+    simp [List.mem_append, hf]
+  have h2 : Reader.excFields.contains field = false := by
+    have : ∀ f ∈ Reader.frameFields, Reader.excFields.contains f = false := by decide
+    exact this field hf
+  constructor
+  · intro e he
+    simp only [Reader.getMetadata, h1, h2, Bool.not_true, Bool.false_eq_true, if_false]
+    rw [(findEntry_iff hk e.key e).mpr ⟨he, rfl⟩]
+  · simp only [Reader.getMetadata, h1, h2, Bool.not_true, Bool.false_eq_true, if_false]
+
+/-! ## 5. end to end: what the reader returns is what was live -/
+
+theorem localsData_nodup {cfg : Cfg} {incl excl : Option (List Str)} {ls : List Local}
+    (h : (ls.map (·.name)).Nodup) : ((localsData cfg incl excl ls).map (·.1)).Nodup := by
+  simp only [localsData, List.map_map]
+  have : ((fun p : Str × Str => p.1) ∘ fun l : Local => (l.name, l.val)) = fun l => l.name := rfl
+  rw [this]
+  exact (List.filter_sublist.map _).nodup h
+
+/-- `SaveframeReader(file).get_variables(name, frame_idx=k)` on the file written by `saveframe` returns `val`
+    iff `k` is a selected key whose frame has a retained local `name` with live value `val`. -/
+theorem C17_end_to_end {cfg : Cfg} {rx : Rx} {a : Args} {e : Exc} {es : List Entry}
+    (hs : save cfg rx a e = .ok es)
+    (hloc : ∀ f ∈ allFrames cfg e, (f.locals.map (·.name)).Nodup)
+    (excf : List (Str × Str)) (n val : Str) (k : Nat) :
+    Reader.getVariables ⟨es, excf⟩ (.single n) (.int k) = .ok (.v val) ↔
+      ∃ v sel f, validateArgs cfg a = .ok v ∧ framesToSave rx v.sel (allFrames cfg e) = .ok sel ∧
+        (k, f) ∈ sel ∧ (n, val) ∈ localsData cfg v.incl v.excl f.locals := by
+  simp only [save, bind, Except.bind] at hs
+  cases hv : validateArgs cfg a with
+  | error er => simp [hv] at hs
+  | ok v =>
+    simp only [hv] at hs
+    cases hsel : framesToSave rx v.sel (allFrames cfg e) with
+    | error er => simp [hsel] at hs
+    | ok sel =>
+      simp only [hsel, Except.ok.injEq] at hs
+      subst hs
+      obtain ⟨hAt, hlt⟩ := C17_selection_keys hsel
+      have hk : (sel.map fun kf => (⟨kf.1, kf.2, localsData cfg v.incl v.excl kf.2.locals⟩ : Entry)).Pairwise
+          (fun a b => a.key ≠ b.key) := by
+        rw [List.pairwise_map]
+        exact hlt.imp (fun h => Nat.ne_of_lt h)
+      have hmemf : ∀ x ∈ sel, x.2 ∈ allFrames cfg e := by
+        intro x hx
+        obtain ⟨_, h2⟩ := hAt x hx
+        exact List.mem_of_getElem? h2
+      have hn : ∀ en ∈ (sel.map fun kf => (⟨kf.1, kf.2, localsData cfg v.incl v.excl kf.2.locals⟩ : Entry)),
+          (en.vars.map (·.1)).Nodup := by
+        intro en hen
+        obtain ⟨x, hx, rfl⟩ := List.mem_map.mp hen
+        exact localsData_nodup (hloc _ (hmemf x hx))
+      rw [C17_reader_variable_at (d := ⟨_, excf⟩) hk hn]
+      constructor
+      · rintro ⟨en, hen, hkey, hval⟩
+        obtain ⟨x, hx, rfl⟩ := List.mem_map.mp hen
+        simp only at hkey hval
+        subst hkey
+        exact ⟨v, sel, x.2, rfl, hsel, hx, hval⟩
+      · rintro ⟨v', sel', f, hv', hsel', hmem, hval⟩
+        simp only [Except.ok.injEq] at hv'; subst hv'
+        rw [hsel] at hsel'
+        simp only [Except.ok.injEq] at hsel'; subst hsel'
+        exact ⟨⟨k, f, _⟩, List.mem_map.mpr ⟨(k, f), hmem, rfl⟩, rfl, hval⟩
+
+/-! ## Witness: D7 (the full-strength filter statement is false for the code as found) -/
+section Witness
+
+def d7Args : Args := ⟨.none, .list [.s "1bad".toList], .none, .function⟩
+def d7Locals : List Local := [⟨"x".toList, "1".toList, true⟩]
+
+/-- `saveframe(variables=['1bad'])`: the include list is in force (`truthy`), `x` is not in it, `x` is saved. -/
+theorem C17_filter_D7_witness :
+    ∃ v, validateArgs {} d7Args = .ok v ∧
+      ("x".toList, "1".toList) ∈ localsData {} v.incl v.excl d7Locals ∧
+      ¬ ∃ l ∈ d7Locals, l.name = "x".toList ∧ l.val = "1".toList ∧ Retained d7Args l := by
+  refine ⟨⟨.none, some [], none⟩, rfl, by decide, ?_⟩
+  rintro ⟨l, hl, _, _, _, h2, _⟩
+  simp only [d7Locals, List.mem_singleton] at hl
+  subst hl
+  have := h2 (by decide)
+  revert this
+  decide
+
+/-- the hypothesis of `C17_filter_partial` excludes exactly this input … -/
+example : d7free d7Args = false := by decide
+/-- … and with the repair the witness input saves nothing. -/
+example : ∃ v, validateArgs { d7fixed := true } d7Args = .ok v ∧
+    localsData { d7fixed := true } v.incl v.excl d7Locals = [] := ⟨⟨.none, some [], none⟩, rfl, by decide⟩
+
+/-- the hypotheses of `C17_filter_partial` are satisfiable by a non-trivial input -/
+example : ∃ v, validateArgs {} ⟨.none, .list [.s "x".toList, .s "1bad".toList], .none, .function⟩ = .ok v ∧
+    d7free ⟨.none, .list [.s "x".toList, .s "1bad".toList], .none, .function⟩ = true ∧
+    localsData {} v.incl v.excl [⟨"x".toList, "1".toList, true⟩, ⟨"y".toList, "2".toList, true⟩]
+      = [("x".toList, "1".toList)] := ⟨⟨.none, some ["x".toList], none⟩, rfl, by decide, by decide⟩
+
+end Witness
+
+end Pfb.C17
